@@ -64,8 +64,9 @@ type Spec struct {
 	PagerOn       bool     `json:"pager_on"`                 // ASA: 'sh pager' reports pager lines 24
 	Width80       bool     `json:"width_80"`                 // ASA: 'sh term' reports width 80
 	NoEndMarker   bool     `json:"no_end_marker"`
-	XE            bool     `json:"xe,omitempty"`      // IOS model prints ACLs in IOS-XE spelling
-	Notices       bool     `json:"notices,omitempty"` // ASA: print the notice lines a device shows for accepted commands (incomplete crypto map entry, L2L tunnel-group name, INFO lines)
+	CallHomeAsk   bool     `json:"call_home_ask,omitempty"` // ASA that was never asked about anonymous error reporting: 'configure terminal' shows the question "[Y]es, [N]o, [A]sk later"; Y and N are stored in the configuration
+	XE            bool     `json:"xe,omitempty"`            // IOS model prints ACLs in IOS-XE spelling
+	Notices       bool     `json:"notices,omitempty"`       // ASA: print the notice lines a device shows for accepted commands (incomplete crypto map entry, L2L tunnel-group name, INFO lines)
 }
 
 // Event is one record of the simulator log.
